@@ -209,3 +209,60 @@ Fixpoint pos_digits (fuel : nat) (n : Z) (acc : string) : string :=
   end.
 Definition Z_to_string (z : Z) : string :=
   if Z.ltb z 0 then String "-" (pos_digits 80 (Z.opp z) "") else pos_digits 80 z "".
+
+(** A total order on JSON values (for canonical sorting of result sets). *)
+Definition lex (c : comparison) (k : comparison) : comparison :=
+  match c with Eq => k | _ => c end.
+
+Definition jrank (j : json) : Z :=
+  match j with JNull => 0 | JBool _ => 1 | JNum _ => 2 | JStr _ => 3 | JArr _ => 4 | JObj _ => 5 end.
+
+Fixpoint json_compare (a b : json) {struct a} : comparison :=
+  match a, b with
+  | JBool x, JBool y => Z.compare (if x then 1 else 0) (if y then 1 else 0)
+  | JNum x, JNum y => Z.compare x y
+  | JStr x, JStr y => String.compare x y
+  | JArr xs, JArr ys =>
+      (fix go (xs ys : list json) {struct xs} : comparison :=
+         match xs, ys with
+         | [], [] => Eq
+         | [], _ => Lt
+         | _, [] => Gt
+         | x :: xs', y :: ys' => lex (json_compare x y) (go xs' ys')
+         end) xs ys
+  | JObj xs, JObj ys =>
+      (fix go (xs ys : list (string * json)) {struct xs} : comparison :=
+         match xs, ys with
+         | [], [] => Eq
+         | [], _ => Lt
+         | _, [] => Gt
+         | (k, x) :: xs', (k', y) :: ys' =>
+             lex (String.compare k k') (lex (json_compare x y) (go xs' ys'))
+         end) xs ys
+  | _, _ => Z.compare (jrank a) (jrank b)
+  end.
+
+Definition json_leb (a b : json) : bool :=
+  match json_compare a b with Gt => false | _ => true end.
+
+Fixpoint insert_json (x : json) (l : list json) : list json :=
+  match l with
+  | [] => [x]
+  | y :: r => if json_leb x y then x :: l else y :: insert_json x r
+  end.
+Definition sort_json (l : list json) : list json := fold_right insert_json [] l.
+
+Fixpoint dedup_sorted_json (l : list json) : list json :=
+  match l with
+  | [] => []
+  | x :: r => match r with
+              | [] => [x]
+              | y :: _ => if json_eqb x y then dedup_sorted_json r else x :: dedup_sorted_json r
+              end
+  end.
+
+(** Canonical multiset / set of JSON values. *)
+Definition canon_multiset (l : list json) : list json := sort_json l.
+Definition canon_set (l : list json) : list json := dedup_sorted_json (sort_json l).
+
+Definition jstrs_of (l : list string) : json := JArr (map JStr l).
